@@ -109,6 +109,8 @@ function VIA_GSUB(f) string.gsub("x", "x", function() f() end) end
 function VIA_TOSTRING(f) tostring(setmetatable({}, {__tostring = function() f() return "" end})) end
 function VIA_INDEX(f) local _ = setmetatable({}, {__index = function() f() end}).k end
 function VIA_CONCAT(f) local _ = setmetatable({}, {__concat = function() f() return "" end}) .. "" end
+-- the closing value of a generic for delivered by a multi-value call
+function FORIN(c) return IT, nil, nil, c end
 -- the value loses its __close metamethod after it was declared
 function UNCL(x) getmetatable(x).__close = nil end
 `
